@@ -326,6 +326,12 @@ func (g *G) basePlan(prop string, seed uint64) *Plan {
 	if sp.NURLs > 1 && g.chance(60) {
 		sp.LagMax = g.between(1, 3)
 	}
+	if g.chance(12) {
+		// a large batch (more blocks per step and per partition than any small
+		// constant) on a chain long enough to fill it
+		sp.Batch = g.between(13, 40)
+		sp.InitLen = max(sp.InitLen, g.between(30, 70))
+	}
 	// heads pushed over a websocket subscription instead of being polled
 	sp.WS = g.chance(20) && os.Getenv("VERIF_NO_WS") == ""
 	if g.chance(25) {
@@ -340,7 +346,7 @@ func (g *G) basePlan(prop string, seed uint64) *Plan {
 	}
 	if g.chance(10) {
 		// busy blocks: many transactions and logs per block
-		p.Content.TxMax, p.Content.LogMax = g.between(6, 10), g.between(10, 24)
+		p.Content.TxMax, p.Content.LogMax = g.between(5, 7), g.between(8, 12)
 	}
 	p.MaxSteps = 4000
 	return p
